@@ -105,8 +105,8 @@ macro_rules! stream_case {
             s1.apply_keystream(&mut a[L1..]);
             let mut o2: [u8; L1 + L2] = kani::any();
             let mut s2 = $mk(key, &iv);
-            assert!(s2.apply_keystream_b2b(&input[..L1], &mut o2[..L1]).is_ok());
-            assert!(s2.try_apply_keystream_inout(InOutBuf::new(&input[L1..], &mut o2[L1..]).unwrap()).is_ok());
+            s2.apply_keystream_b2b(&input[..L1], &mut o2[..L1]).unwrap();
+            s2.try_apply_keystream_inout(InOutBuf::new(&input[L1..], &mut o2[L1..]).unwrap()).unwrap();
             let mut i = 0;
             while i < L1 + L2 {
                 assert!(a[i] == o2[i], "b2b output differs from in-place output");
@@ -202,7 +202,7 @@ fn mk_ctr64be_b8(key: [u8; 2], iv: &[u8; 8]) -> ctr::Ctr64BE<UfE<U8, U1>> { ctr:
 fn mk_ctr64le_b8(key: [u8; 2], iv: &[u8; 8]) -> ctr::Ctr64LE<UfE<U8, U2>> { ctr::Ctr64LE::new(&key.into(), blk::<U8>(iv)) }
 fn mk_ctr128be_b16(key: [u8; 2], iv: &[u8; 16]) -> ctr::Ctr128BE<UfE<U16, U2>> { ctr::Ctr128BE::new(&key.into(), blk::<U16>(iv)) }
 fn mk_ctr128le_b16(key: [u8; 2], iv: &[u8; 16]) -> ctr::Ctr128LE<UfE<U16, U1>> { ctr::Ctr128LE::new(&key.into(), blk::<U16>(iv)) }
-fn mk_belt(key: [u8; 2], iv: &[u8; 16]) -> belt_ctr::BeltCtr<UfE<U16, U2>> { belt_ctr::BeltCtr::new(&key.into(), blk::<U16>(iv)) }
+fn mk_belt(key: [u8; 2], iv: &[u8; 16]) -> belt_ctr::BeltCtr<UfE<U16, U2>> { crate::common::belt_alias::<U2>(key, iv) }
 
 // ---- quick -----------------------------------------------------------------------------------
 blocks_case!(cbc_enc_b2_w2_n3, 48, cbc::Encryptor, enc, U2, 2, U2, 2, U2, 3, U2, 2);
